@@ -22,19 +22,25 @@ def ucLen (c : Nat) : Nat :=
 def rd (s : Bytes) (k : Nat) : Option Nat :=
   if k < s.length then s[k]? else if k = s.length then some 0 else none
 
-/-- `uc_code` / `uc_dec`; `none` = the C reads past the terminator. -/
+/-- `uc_code` / `uc_dec`.  A character cut short by the terminator decodes to its lead byte: the C code does not
+    read past the terminator (`!s[1] ? c : …`, `!s[1] || !s[2] ? c : …`); the result is never `none`. -/
 def ucCode (s : Bytes) : Option Nat :=
   let c := Bytes.hd s
   if c &&& 0xc0 != 0xc0 then some c
   else if c &&& 0x20 == 0 then do
     let b1 ← rd s 1
     some (((c &&& 0x1f) <<< 6) ||| (b1 &&& 0x3f))
-  else if c &&& 0x10 == 0 then do
-    let b1 ← rd s 1; let b2 ← rd s 2
-    some (((c &&& 0x0f) <<< 12) ||| ((b1 &&& 0x3f) <<< 6) ||| (b2 &&& 0x3f))
-  else if c &&& 0x08 == 0 then do
-    let b1 ← rd s 1; let b2 ← rd s 2; let b3 ← rd s 3
-    some (((c &&& 0x07) <<< 18) ||| ((b1 &&& 0x3f) <<< 12) ||| ((b2 &&& 0x3f) <<< 6) ||| (b3 &&& 0x3f))
+  else if c &&& 0x10 == 0 then
+    match rd s 1, rd s 2 with
+    | some b1, some b2 =>
+      if b1 == 0 then some c else some (((c &&& 0x0f) <<< 12) ||| ((b1 &&& 0x3f) <<< 6) ||| (b2 &&& 0x3f))
+    | _, _ => some c
+  else if c &&& 0x08 == 0 then
+    match rd s 1, rd s 2, rd s 3 with
+    | some b1, some b2, some b3 =>
+      if b1 == 0 || b2 == 0 then some c
+      else some (((c &&& 0x07) <<< 18) ||| ((b1 &&& 0x3f) <<< 12) ||| ((b2 &&& 0x3f) <<< 6) ||| (b3 &&& 0x3f))
+    | _, _, _ => some c
   else some c
 
 /-- `(c & 0xc0) == 0x80` -/
